@@ -1500,13 +1500,18 @@ impl Tree {
 		// TODO: Add file to write options manifest
 		// TODO: Add version header in file similar to table in WAL
 
+		// The store is open from here on (directory locked, background tasks
+		// running). If the remaining step fails, dropping the handle closes it
+		// again; a bare `Core` would leave the lock held.
+		let tree = Self {
+			core: Arc::new(core),
+			handles: Arc::new(std::sync::atomic::AtomicUsize::new(1)),
+		};
+
 		// Ensure directory changes are persisted
 		sync_directory_structure(&opts)?;
 
-		Ok(Self {
-			core: Arc::new(core),
-			handles: Arc::new(std::sync::atomic::AtomicUsize::new(1)),
-		})
+		Ok(tree)
 	}
 
 	/// Creates all required directory structure for the LSM tree
